@@ -317,3 +317,54 @@ def rule_positioned_syntax_errors(ctx, rep, rid: str) -> None:
                             rep.ok(rid, key, {"fallback": "node without location"})
                         else:
                             rep.bad(rid, key, f"{f.qual} builds a JSSyntaxError without line/column", loc)
+
+
+# ------------------------------------------------------------------ C07-R2c
+def rule_handler_stack_mutations(ctx, rep, rid: str) -> None:
+    """Typestate of the handler stack: records are pushed only by TRY_START and removed only by TRY_END
+    (normal completion), by the throw that uses them, or when the frame that owns them returns."""
+    rep.rule(rid, "the handler stack is pushed only by TRY_START and popped only by TRY_END, by the unwinding throw, and for records of a returning frame (compared by frame index)", floor=4)
+    df, chain = ctx.facts.vm_dispatcher()
+    cls = df.cls
+    n = 0
+    for m in cls.methods.values():
+        aliases = {"self.exception_handlers"}
+        for x in m.own_nodes():
+            if isinstance(x, ast.Assign) and norm(x.value) == "self.exception_handlers" and isinstance(x.targets[0], ast.Name):
+                aliases.add(x.targets[0].id)
+        for x in m.own_nodes():
+            kind = None
+            if isinstance(x, ast.Call) and isinstance(x.func, ast.Attribute) and norm(x.func.value) in aliases and x.func.attr in ("append", "pop", "clear", "insert", "remove", "extend"):
+                kind = x.func.attr
+            elif isinstance(x, (ast.Delete,)) and any(norm(getattr(t, "value", t)) in aliases for t in x.targets):
+                kind = "del"
+            elif isinstance(x, ast.Assign) and any(norm(t) == "self.exception_handlers" for t in x.targets) and m.name != "__init__":
+                kind = "rebind"
+            if kind is None:
+                continue
+            n += 1
+            # where is it?
+            where = m.name
+            if m is df:
+                for mem, body, ifn in chain.branches:
+                    if any(x in list(ast.walk(s)) for s in body):
+                        where = "/".join(mem)
+            key = f"{m.qual}:{where}:{kind}"
+            loc = f"{m.module.rel}:{x.lineno}"
+            ok = False
+            if kind == "append" and where == "TRY_START":
+                ok = True
+            elif kind == "pop" and where == "TRY_END":
+                ok = True
+            elif kind == "pop" and m.name == "_throw":
+                ok = True
+            elif kind == "pop" and m is not df:
+                # frame clean-up: the pop must be guarded by a comparison of the record's frame index with the call depth
+                g = [norm(t) for t, pol in guards_of(x, m.node)]
+                ok = any("len(self.call_stack)" in t and "[0]" in t for t in g)
+            if ok:
+                rep.ok(rid, key)
+            else:
+                rep.bad(rid, key, f"{m.qual} ({where}) {kind}s the handler stack outside the protocol: a record that belongs to a live try block (possibly of another frame) can be removed or duplicated, so a later throw skips its catch/finally or lands in the wrong one", loc)
+    if n < 4:
+        raise AnalysisError(f"only {n} handler-stack mutation sites found")
